@@ -25,15 +25,15 @@ Proof.
 Qed.
 
 (** the ORIGINAL test `limbs[limb_count - 1] << lshift < div_limb` (wrapping shift) is wrong: a 14-limb value whose
-    radix-31 string is wrong (finding F25; [fixed = false] is the code before tools/fix_C17_1.diff) *)
-Definition f25_witness : list Z :=
+    radix-31 string is wrong (finding F30; [fixed = false] is the code before tools/fix_C17_1.diff) *)
+Definition f30_witness : list Z :=
   to_limbs 14 (((787662783788549761 / 16) * 2 ^ 64 + 2 ^ 60) * 787662783788549761 ^ 13).
 Theorem format_original_refuted :
   exists r limbs, 2 <= r <= 36 /\ wf limbs /\ limbs <> [] /\
     radix_encode_limbs_to_string false r limbs <> Some (numeral r (eval limbs)) /\
     radix_encode_limbs_to_string true r limbs = Some (numeral r (eval limbs)).
 Proof.
-  exists 31, f25_witness. split; [lia|]. split; [apply wf_to_limbs|]. split; [vm_compute; discriminate|].
+  exists 31, f30_witness. split; [lia|]. split; [apply wf_to_limbs|]. split; [vm_compute; discriminate|].
   split; [|apply format_correct; [lia | apply wf_to_limbs | vm_compute; discriminate]].
   intros E. apply (f_equal (fun o => match o with Some s => length s | None => 0%nat end)) in E.
   vm_compute in E. discriminate.
@@ -92,9 +92,9 @@ Definition S17 (k : string) (dbg : bool) (a : list (list Z)) : outcome :=
 Definition radix_keys : list string :=
   ["uint.from_str_radix"; "boxed.from_str_radix"; "boxed.from_str_radix_prec"; "uint.to_string_radix";
    "boxed.to_string_radix"; "uint.radix_roundtrip"; "boxed.radix_roundtrip"].
-(* the one class where the decoder deviates from the documented error (finding F26): a string that is no numeral
+(* the one class where the decoder deviates from the documented error (finding F31): a string that is no numeral
    and whose digits before the offending character already overflow the target *)
-Definition f26_class (k : string) (dbg : bool) (a : list (list Z)) : Prop :=
+Definition f31_class (k : string) (dbg : bool) (a : list (list Z)) : Prop :=
   (k = "uint.from_str_radix" \/ k = "boxed.from_str_radix_prec") /\
   M17 k dbg a = ErrV E_InputSize /\ S17 k dbg a = ErrV E_InvalidDigit /\
   2 <= sarg 1 a <= 36 /\ sp_body (arg 0 a) <> [] /\ ~ well_formed (sarg 1 a) (arg 0 a).
@@ -129,12 +129,12 @@ Proof.
   rewrite format_unsupported_radix_panics by assumption. reflexivity.
 Qed.
 
-(** model = spec for every entry of the table, wherever the specification is defined, except the F26 class *)
+(** model = spec for every entry of the table, wherever the specification is defined, except the F31 class *)
 Theorem tables_agree_radix dbg a k : In k radix_keys -> S17 k dbg a <> Unsupported ->
-  M17 k dbg a = S17 k dbg a \/ f26_class k dbg a.
+  M17 k dbg a = S17 k dbg a \/ f31_class k dbg a.
 Proof.
   intros Hin. unfold radix_keys in Hin. cbn [In] in Hin.
-  destruct Hin as [<-|[<-|[<-|[<-|[<-|[<-|[<-|[]]]]]]]]; unfold f26_class, M17, S17; cbn [lookup ops_radix_model ops_radix_spec String.eqb Ascii.eqb Bool.eqb]; cbv beta iota.
+  destruct Hin as [<-|[<-|[<-|[<-|[<-|[<-|[<-|[]]]]]]]]; unfold f31_class, M17, S17; cbn [lookup ops_radix_model ops_radix_spec String.eqb Ascii.eqb Bool.eqb]; cbv beta iota.
   - (* uint.from_str_radix *)
     intros Hs. set (n := rx_nat 2 a) in *. set (s := arg 0 a) in *. set (r := sarg 1 a) in *.
     destruct (bytes_ok s) eqn:Eb; [|exfalso; apply Hs; unfold sp_parse; rewrite Eb; reflexivity].
